@@ -85,6 +85,25 @@ func i1Line(r *rng, names []string, dns bool) string {
 	default:
 		t = "||" + pick(r, names) + "^" + pick(r, []string{"", "$important", "$badfilter", "$script", "$client=10.0.0.0/8|'laptop'", "$dnsrewrite=1.2.3.4", "$dnstype=A"})
 	}
+	if r.chance(1, 40) {
+		// a line longer than the scanner's 4096-byte read buffer: a long comment whose tail is rule-shaped, a
+		// rule with a long $domain list (lands in the $domain index), a hosts line with a long comment
+		name := pick(r, names)
+		switch r.n(3) {
+		case 0:
+			head := pick(r, []string{"! ", "# "})
+			t = head + strings.Repeat("x", 4096-len(head)) + "||" + name + "^$important"
+		case 1:
+			var ds []string
+			for k := 0; len(strings.Join(ds, "|")) < 4200; k++ {
+				ds = append(ds, fmt.Sprintf("d%03d.example.org", k))
+			}
+			t = "/ad$domain=" + strings.Join(ds, "|") + "|" + name
+		default:
+			head := "0.0.0.0 " + name + " # "
+			t = head + strings.Repeat("c", 4096-len(head)) + "other." + name
+		}
+	}
 	t = strings.NewReplacer("\n", "", "\r", "").Replace(t)
 	if r.chance(1, 8) {
 		t = pick(r, []string{" ", "\t", "  ", " ", "\v"}) + t
